@@ -93,6 +93,10 @@ class DispatchingRequestHandler(BaseHTTPRequestHandler):
             self.end_headers()
             self.wfile.write(response_xml_string)
             return
+        except ValueError as ex:  # urlparse cannot split the request target
+            self.server.logger.error('invalid request target {} (request from {}): {}', self.path, self.client_address, ex)
+            self._send_plain_error(400, f'invalid request target: {ex}')
+            return
 
         peer_name = self.connection.getpeername()
         try:
@@ -134,6 +138,10 @@ class DispatchingRequestHandler(BaseHTTPRequestHandler):
         except InvalidPathError as ex:
             self.server.logger.error('invalid path {} (request from {}): {}', self.path, self.client_address, ex.reason)
             self._send_plain_error(ex.status, ex.reason)
+            return
+        except ValueError as ex:  # urlparse cannot split the request target
+            self.server.logger.error('invalid request target {} (request from {}): {}', self.path, self.client_address, ex)
+            self._send_plain_error(400, f'invalid request target: {ex}')
             return
 
         peer_name = self.connection.getpeername()
